@@ -74,7 +74,10 @@ def with_fields_set(cls: Cls) -> Cls:
         except KeyError:
             raise RuntimeError(dataclass_before_error) from None
         old_setattr(self, attr, value)  # type: ignore
-        fields_set.add(attr)  # only if the assignment succeeded (e.g. frozen class)
+        # only if the assignment succeeded (e.g. frozen class); special attributes are
+        # not fields (typing sets __orig_class__ on instances of generic classes)
+        if not (attr.startswith("__") and attr.endswith("__")):
+            fields_set.add(attr)
 
     for attr, old, new in [
         ("__new__", old_new, new_new),
